@@ -757,6 +757,63 @@ def check_attach_last(idx: Index, rep: Report) -> None:
     r.samples[:] = ["Block.insert_op_before: `existing_op.parent is not self` is tested before self._attach_op(new_op)"]
 
 
+def _parents(fn: ast.AST) -> dict[int, ast.AST]:
+    par: dict[int, ast.AST] = {}
+    for n in ast.walk(fn):
+        for c in ast.iter_child_nodes(n):
+            par[id(c)] = n
+    return par
+
+
+def check_bulk_repair(idx: Index, rep: Report) -> None:
+    """A bulk insertion that chains the new nodes itself leaves the list open while it runs: the end pointer / the link
+    back to the node behind the insertion point is written once, after the loop.  `_attach_*` is the validation of the
+    *next* child and raises for a child that already has a parent: when it sits in that loop, the pending store must
+    also run on the way out of a rejected call (a `finally`), otherwise the children linked so far are in the forward
+    list while the end pointer / backward link still describes the old list."""
+    r = rep.rule("C01.R6c", "a bulk insertion that validates a child (_attach_*) inside its linking loop writes the deferred end pointer / closing link in a `finally` (a rejected later child leaves a consistent list)", floor=2)
+    mi = idx.module(CORE)
+    n = 0
+    for f in raw_funcs(mi):
+        if f.cls is None or f.cls.name not in ("Block", "Region"):
+            continue
+        par = _parents(f.node)
+        stores = [x for x in walk_local(f.node) if isinstance(x, ast.Assign) and len(x.targets) == 1 and isinstance(x.targets[0], ast.Attribute) and x.targets[0].attr in LINK_FIELDS | END_FIELDS]
+        if not stores:
+            continue
+
+        def chain(x: ast.AST) -> list[ast.AST]:
+            out = []
+            while id(x) in par:
+                x = par[id(x)]
+                out.append(x)
+            return out
+
+        for a in calls_in(f.node):
+            if call_attr(a) not in ("_attach_op", "_attach_block"):
+                continue
+            up = chain(a)
+            loops = [x for x in up if isinstance(x, (ast.For, ast.While))]
+            if not loops:
+                continue
+            loop = loops[-1]
+            inside = [x for x in stores if loop in chain(x)]
+            if not inside:
+                continue
+            n += 1
+            inst = f"{f.fq}:{call_attr(a)}"
+            deferred = [x for x in stores if loop not in chain(x) and x.lineno > loop.lineno]
+            tries = [x for x in up if isinstance(x, ast.Try) and x.finalbody]
+            unprotected = [x for x in deferred if not any(any(x is y or x in list(ast.walk(y)) for y in t.finalbody) for t in tries)]
+            if unprotected:
+                x = unprotected[0]
+                r.fail(inst, Finding("C01.R6c", f.fq, f"deferred-store-skipped-on-rejection:{x.targets[0].attr}", f"`{unparse(a)}` (line {a.lineno}) validates each child inside the loop that links the children, and raises for one that already has a parent; `{unparse(x)[:70]}` (line {x.lineno}) is only written on the normal way out: after `[new, attached]` is rejected, `new` is in the forward list while the end pointer / backward link still describes the old list", f"{CORE}:{x.lineno}"))
+            else:
+                r.ok(inst, f"{f.loc} {len(deferred)} deferred store(s), all in a finally around the loop" if deferred else f"{f.loc} nothing deferred past the loop")
+    if n < 2:
+        raise AnalysisError(f"{CORE}: {n} bulk linking loops with _attach_* found (add_block and insert_block_before expected)")
+
+
 def check(idx: Index, rep: Report, tier: str) -> str:
     rep.run(check_pairing, idx, rep)
     rep.run(check_end_pointers, idx, rep)
@@ -767,6 +824,7 @@ def check(idx: Index, rep: Report, tier: str) -> str:
     rep.run(check_index_classes, idx, rep)
     rep.run(check_attach, idx, rep)
     rep.run(check_attach_last, idx, rep)
+    rep.run(check_bulk_repair, idx, rep)
     rep.run(check_iterators, idx, rep)
     return (
         "AST/CFG rules over the intrusive-list and use-list primitives of xdsl/ir/core.py and every writer of a structural "
